@@ -83,6 +83,8 @@ STUBS = {
     'Pistache::Http::FullDate::write': 'vs_date_write',
     # CookieJar::Storage = unordered_map<name, unordered_map<value, Cookie>>: what is looked up and what is inserted under which key
     'ctor:std::string/copy': 'vs_astr_copy',
+    # std::string observers (not used by the writer on the unchanged tree: a rewrite that consults them is decided, not a tool error)
+    'std::string::empty': {'expr': '(($this)->size == 0)'}, 'std::string::size': {'expr': '(($this)->size)'}, 'std::string::length': {'expr': '(($this)->size)'},
     'std::unordered_map<std::string, std::unordered_map<std::string, Pistache::Http::Cookie>>::find': 'vs_jar_find', 'std::unordered_map<std::string, std::unordered_map<std::string, Pistache::Http::Cookie>>::end': {'expr': '((struct vs_inner *)0)'},
     'operator==|std::__detail::_Node_iterator_base<std::pair<std::string, std::unordered_map<std::string, Pistache::Http::Cookie>>, true>,std::__detail::_Node_iterator_base<std::pair<std::string, std::unordered_map<std::string, Pistache::Http::Cookie>>, true>': {'expr': '(($0) == ($1))'},
     'ctor:std::unordered_map<std::string, Pistache::Http::Cookie>/0': {'expr': '((struct vs_inner){0})'},
